@@ -2022,3 +2022,188 @@ Print Assumptions C01_gen_cube_CubeSet_has_weighted_counts.
 
 End GenAgreeCube_C01.
 (*END GenAgreeCube_C01*)
+
+(*BEGIN GenAgreeDimType_C01*)
+(* ------------------------------------------------------------------------------------ *)
+(* SOURCE TEXT of the dimension typing of src/cr/cube/dimension.py.  Gen/DimTypeSrc.v (and Gen/DimensionSrc.v, which
+   it imports) is regenerated on every check by harness/translate/x_dimtype.py (x_dimension.py's shallow technique:
+   every member as a Gallina function over the Python-semantics combinators of Base/PyList.v + Base/PyDict.v +
+   Model/PyDimension.v + Model/PyDimType.v; [X] = what the lazyproperties _dimension_dict / _dimension_transforms_dict
+   of a Dimension object evaluate to).  For ALL dimension dicts that read as the model's [rdim] ([rdim_abs],
+   Proofs/GenAgreeDimTypeKind.v) Dimensions.dimension_type IS [dimension_type] and Dimensions.from_dicts IS [resolve]
+   of Model/DimType.v; apparent_dimensions / dimension_order / shape ARE [apparent_types] / [dimension_order] /
+   [raw_shape] (Model/DimType.v, Model/CubeCounts.v, named in Model/NumArray.v); Elements.from_typedef - with a
+   typedef "order" list, for MR_SUBVAR and DATETIME - builds the elements of the RE-ARRANGED definitions ([reorder]),
+   which are [elements_of] of Model/TypedefOrder.v ([gen_dimtype_from_typedef_model]).  [None] = the member is outside
+   the translator's whitelist. *)
+From CC Require Proofs.GenAgreeDimTypeLib Proofs.GenAgreeDimTypeKind Proofs.GenAgreeDimTypeElems Proofs.GenAgreeDimTypeOrder Proofs.GenAgreeDimTypeDims Proofs.GenAgreeDimTypeFromDicts Proofs.DimValuesProofs.
+Section GenAgreeDimType_C01.   (* scopes and imports below end with the section *)
+Import Coq.Lists.List Coq.ZArith.ZArith Coq.Strings.String Coq.Bool.Bool CC.Base.XQ CC.Base.PyList CC.Base.PyDict
+       CC.Model.DimType CC.Model.PyDimension CC.Model.PyDimType CC.Model.DimValues CC.Model.Smoothing
+       CC.Gen.DimensionSrc CC.Gen.DimTypeSrc CC.Proofs.GenAgreeDimensionLib
+       CC.Proofs.GenAgreeDimTypeLib CC.Proofs.GenAgreeDimTypeKind CC.Proofs.GenAgreeDimTypeElems CC.Proofs.GenAgreeDimTypeOrder CC.Proofs.GenAgreeDimTypeDims CC.Proofs.GenAgreeDimTypeFromDicts CC.Proofs.DimValuesProofs.
+Import Coq.Lists.List.ListNotations.
+Local Close Scope Q_scope.
+Local Open Scope Z_scope.
+Local Open Scope string_scope.
+
+Theorem C01_gen_dimtype_Dimension_alias :
+  match src_Dimension_alias with
+  | Some f => forall t dd tr refs, jget dd "references" = Some (JDict refs) ->
+      f (mkPyDimension t (JDict dd) tr) = Ok (dimension_alias refs)
+  | None => True end.
+Proof. exact gen_dimtype_Dimension_alias. Qed.
+Print Assumptions C01_gen_dimtype_Dimension_alias.
+
+Theorem C01_gen_dimtype_Dimensions_dimension_type :
+  match src_Dimensions_dimension_type with
+  | Some f => forall X dd rd, rdim_abs dd rd -> f X (JDict dd) = Ok (DimType.dimension_type rd)
+  | None => True end.
+Proof. exact gen_dimtype_Dimensions_dimension_type. Qed.
+Print Assumptions C01_gen_dimtype_Dimensions_dimension_type.
+
+Theorem C01_gen_dimtype_Dimensions_dimension_type_unknown :
+  match src_Dimensions_dimension_type with
+  | Some f => forall X dd ty c, jget dd "type" = Some (JDict ty) -> jget ty "class" = Some (JStr c) ->
+      c <> "categorical" -> c <> "enum" -> f X (JDict dd) = Err NotImplementedError
+  | None => True end.
+Proof. exact gen_dimtype_Dimensions_dimension_type_unknown. Qed.
+Print Assumptions C01_gen_dimtype_Dimensions_dimension_type_unknown.
+
+Theorem C01_gen_dimtype_Element_missing :
+  match src_Element_missing with
+  | Some f => forall e idx xf t,
+      f (mkPyElement (JDict e) idx xf t) = Ok (jv_truthy (jd_get_default e (JStr "missing") JNone))
+  | None => True end.
+Proof. exact gen_dimtype_Element_missing. Qed.
+Print Assumptions C01_gen_dimtype_Element_missing.
+
+Theorem C01_gen_dimtype_Elements_valid_elements :
+  match src_Elements_valid_elements with
+  | Some f => forall els, Forall el_is_dict els -> f els = Ok (filter (fun el => negb (el_missing el)) els)
+  | None => True end.
+Proof. exact gen_dimtype_Elements_valid_elements. Qed.
+Print Assumptions C01_gen_dimtype_Elements_valid_elements.
+
+Theorem C01_gen_dimtype_fn__formatter :
+  match src_fn__formatter with
+  | Some f => forall t ty fmt, fmt_ok t ty -> f t (JDict ty) fmt = Ok tt
+  | None => True end.
+Proof. exact gen_dimtype_fn__formatter. Qed.
+Print Assumptions C01_gen_dimtype_fn__formatter.
+
+Theorem C01_gen_dimtype_Elements_from_typedef :
+  match src_Elements_from_typedef, src_Elements__hidden_transforms with
+  | Some f, Some h => forall ty tr t fmt defs rids ids o ax hid,
+      typedef_defs ty = Some defs ->
+      match o with Some _ => Forall2 raw_id defs rids | None => True end ->
+      Forall2 (wf_def t) defs ids ->
+      order_abs (jd_get_default ty (JStr "order") JNone) o ->
+      jd_get_default tr (JStr "elements") (JDict []) = JDict ax ->
+      fmt_ok t ty ->
+      (dtype_eqb t TMrSubvar = true ->
+       h (JList (reorder rids defs o)) (jd_get_default tr (JStr "insertions") (JList [])) = Ok hid) ->
+      f (JDict ty) (JDict tr) t fmt
+      = Ok (elements_from t (if dtype_eqb t TMrSubvar then jd_update hid ax else ax) 0
+                          (reorder rids defs o) (reorder rids ids o))
+  | _, _ => True end.
+Proof. exact gen_dimtype_Elements_from_typedef. Qed.
+Print Assumptions C01_gen_dimtype_Elements_from_typedef.
+
+Theorem C01_gen_dimtype_from_typedef_model :
+  match src_Elements_from_typedef, src_Elements__hidden_transforms with
+  | Some f, Some h => forall ty tr t fmt jdefs edefs o ax,
+      dt_in t [TCaSubvar; TMrSubvar; TNumArr] = false -> dtype_eqb t TDatetime = false ->
+      typedef_defs ty = Some jdefs -> Forall2 edef_abs jdefs edefs ->
+      order_abs (jd_get_default ty (JStr "order") JNone) (zorder o) ->
+      jd_get_default tr (JStr "elements") (JDict []) = JDict ax ->
+      exists els, f (JDict ty) (JDict tr) t fmt = Ok els /\
+                  Forall2 element_abs els (TypedefOrder.elements_of edefs o)
+  | _, _ => True end.
+Proof. exact gen_dimtype_from_typedef_model. Qed.
+Print Assumptions C01_gen_dimtype_from_typedef_model.
+
+Theorem C01_gen_dimtype_Dimension_all_elements :
+  match src_Dimension_all_elements, src_Elements__hidden_transforms with
+  | Some f, Some h => forall t dd tr ty defs rids ids o ax hid, dim_reads' t dd tr ty defs rids ids o ax ->
+      (dtype_eqb t TMrSubvar = true ->
+       h (JList (reorder rids defs o)) (jd_get_default tr (JStr "insertions") (JList [])) = Ok hid) ->
+      f (mkPyDimension t (JDict dd) (JDict tr))
+      = Ok (all_elems t (if dtype_eqb t TMrSubvar then jd_update hid ax else ax) defs rids ids o)
+  | _, _ => True end.
+Proof. exact gen_dimtype_Dimension_all_elements. Qed.
+Print Assumptions C01_gen_dimtype_Dimension_all_elements.
+
+Theorem C01_gen_dimtype_Dimension_valid_elements :
+  match src_Dimension_valid_elements, src_Elements__hidden_transforms with
+  | Some f, Some h => forall t dd tr ty defs rids ids o ax hid, dim_reads' t dd tr ty defs rids ids o ax ->
+      (dtype_eqb t TMrSubvar = true ->
+       h (JList (reorder rids defs o)) (jd_get_default tr (JStr "insertions") (JList [])) = Ok hid) ->
+      f (mkPyDimension t (JDict dd) (JDict tr))
+      = Ok (valid_of (all_elems t (if dtype_eqb t TMrSubvar then jd_update hid ax else ax) defs rids ids o))
+  | _, _ => True end.
+Proof. exact gen_dimtype_Dimension_valid_elements. Qed.
+Print Assumptions C01_gen_dimtype_Dimension_valid_elements.
+
+Theorem C01_gen_dimtype_Dimension_shape :
+  match src_Dimension_shape, src_Elements__hidden_transforms with
+  | Some f, Some h => forall t dd tr ty defs rids ids o ax hid, dim_reads' t dd tr ty defs rids ids o ax ->
+      (dtype_eqb t TMrSubvar = true ->
+       h (JList (reorder rids defs o)) (jd_get_default tr (JStr "insertions") (JList [])) = Ok hid) ->
+      f (mkPyDimension t (JDict dd) (JDict tr)) = Ok (py_len (reorder rids defs o))
+  | _, _ => True end.
+Proof. exact gen_dimtype_Dimension_shape. Qed.
+Print Assumptions C01_gen_dimtype_Dimension_shape.
+
+Theorem C01_gen_dimtype_Dimension___init__ :
+  match src_Dimension___init__ with
+  | Some f => forall d t tr, f d t tr = mkPyDimObj d t (if jv_truthy tr then tr else JDict [])
+  | None => True end.
+Proof. exact gen_dimtype_Dimension___init__. Qed.
+Print Assumptions C01_gen_dimtype_Dimension___init__.
+
+Theorem C01_gen_dimtype_Dimension_apply_transforms :
+  match src_Dimension_apply_transforms with
+  | Some f => forall d t tr0 tr,
+      f (mkPyDimObj d t tr0) tr = Ok (mkPyDimObj d t (if jv_truthy tr then tr else JDict []))
+  | None => True end.
+Proof. exact gen_dimtype_Dimension_apply_transforms. Qed.
+Print Assumptions C01_gen_dimtype_Dimension_apply_transforms.
+
+Theorem C01_gen_dimtype_Dimensions_apparent_dimensions :
+  match src_Dimensions_apparent_dimensions with
+  | Some f => forall X self,
+      f X self = Ok (filter not_mr_cat self) /\
+      map do_dimension_type (filter not_mr_cat self) = apparent_types (map do_dimension_type self)
+  | None => True end.
+Proof. exact gen_dimtype_Dimensions_apparent_dimensions. Qed.
+Print Assumptions C01_gen_dimtype_Dimensions_apparent_dimensions.
+
+Theorem C01_gen_dimtype_Dimensions_dimension_order :
+  match src_Dimensions_dimension_order with
+  | Some f => forall X self ds, Forall2 kind_abs self ds ->
+      f X self = Ok (map Z.of_nat (CubeCounts.dimension_order ds))
+  | None => True end.
+Proof. exact gen_dimtype_Dimensions_dimension_order. Qed.
+Print Assumptions C01_gen_dimtype_Dimensions_dimension_order.
+
+Theorem C01_gen_dimtype_Dimensions_shape :
+  match src_Dimensions_shape, src_Dimension_shape with
+  | Some f, Some h => forall X self ds,
+      Forall2 (fun o d => kind_abs o d /\ h (dim_view X o) = Ok (Z.of_nat (dsize d))) self ds ->
+      f X self = Ok (map Z.of_nat (raw_shape ds))
+  | _, _ => True end.
+Proof. exact gen_dimtype_Dimensions_shape. Qed.
+Print Assumptions C01_gen_dimtype_Dimensions_shape.
+
+Theorem C01_gen_dimtype_Dimensions_from_dicts :
+  match src_Dimensions_from_dicts with
+  | Some f => forall X dicts ras,
+      Forall2 (dict_abs X) dicts ras -> alias_ok ras ->
+      f X (JList dicts) = Ok (mkobjs dicts (resolve (map fst ras)))
+  | None => True end.
+Proof. exact gen_dimtype_Dimensions_from_dicts. Qed.
+Print Assumptions C01_gen_dimtype_Dimensions_from_dicts.
+
+End GenAgreeDimType_C01.
+(*END GenAgreeDimType_C01*)
